@@ -70,6 +70,7 @@ def die(msg, code=2):
 
 
 SIMCLOCK_SO = os.path.join(TARGET, "simclock", "libsimclock.so")
+POOL_FILE = os.path.join(TARGET, "pool-big-inputs.json")
 
 
 def sim_env(env=None):
@@ -77,6 +78,8 @@ def sim_env(env=None):
     every clock read and sleep of the process goes through the simulator (pass-through until a
     phase switches to simulated time). Compilers, cargo and Miri run without it."""
     e = dict(env or ENV)
+    if os.path.exists(POOL_FILE):
+        e["COOKSIM_POOL"] = POOL_FILE
     if os.path.exists(SIMCLOCK_SO):
         e["LD_PRELOAD"] = SIMCLOCK_SO + ((":" + e["LD_PRELOAD"]) if e.get("LD_PRELOAD") else "")
     return e
@@ -131,6 +134,17 @@ def build_cooksim():
     build_simclock()
     rc, out = cargo_build("cooksim")
     if rc == 0:
+        # the pool's large inputs are chosen (with the library's help: they must produce an output)
+        # by a process of its own, so that no worker touches the library before its first scenario
+        try:
+            os.remove(POOL_FILE)
+        except OSError:
+            pass
+        rcp, outp = run([BIN, "probe-pool", "--out", POOL_FILE + ".tmp"], timeout=600)
+        if rcp == 0 and os.path.exists(POOL_FILE + ".tmp"):
+            os.replace(POOL_FILE + ".tmp", POOL_FILE)
+        else:
+            log(f"NOTE: cooksim probe-pool failed ({outp[-300:]}); the pool's large inputs are taken unchecked")
         return time.time() - t0
     os.makedirs(TMP, exist_ok=True)
     logp = os.path.join(TMP, "build-cooksim.log")
